@@ -556,7 +556,12 @@ class LoadToolchain(Contract):
             return h
 
         def mk_context(I, args, kwargs, node):
-            return Obj(B.builtin.ToolchainContext, {'env': args[0], 'regenerating': args[1]})
+            # bind like the real constructor does (defaults included), whatever the call site passes
+            import inspect
+            sig = inspect.signature(B.builtin.ToolchainContext.__init__)
+            ba = sig.bind(None, *args, **kwargs)
+            ba.apply_defaults()
+            return Obj(B.builtin.ToolchainContext, {'env': ba.arguments['env'], 'regenerating': ba.arguments['regenerating']})
 
         def run_script(I, args, kwargs, node):
             ctx = args[0]
